@@ -114,6 +114,7 @@ class Registry:
         self.funcs: dict[str, FuncContract] = {}
         self.classes: dict[str, dict] = {}
         self.bases: dict[str, str] = {}
+        self.extra_bases: dict[str, list] = {}
         self.class_truthy: dict[str, str] = {}
         self.ufuncs: dict[str, tuple] = {}
         self.axioms: list = []
@@ -130,7 +131,11 @@ class Registry:
     def cls(self, name, base=None, truthy=None, **fields):
         self.classes.setdefault(name, {}).update(fields)
         if base:
-            self.bases[name] = base
+            if isinstance(base, (list, tuple)):
+                self.bases[name] = base[0]
+                self.extra_bases[name] = list(base[1:])
+            else:
+                self.bases[name] = base
         if truthy:
             self.class_truthy[name] = truthy
 
@@ -147,12 +152,26 @@ class Registry:
         self.assumptions[aid] = text
 
     # -- lookups --------------------------------------------------------------
+    def mro(self, cls):
+        """Depth-first, left-to-right linearisation (duplicates dropped; the
+        class hierarchies under contract have no diamonds with overrides on
+        both sides, where this would differ from C3)."""
+        out = []
+
+        def rec(c):
+            if c is None or c in out:
+                return
+            out.append(c)
+            rec(self.bases.get(c))
+            for b in self.extra_bases.get(c, []):
+                rec(b)
+        rec(cls)
+        return out
+
     def field_owner(self, cls, field):
-        c = cls
-        while c is not None:
+        for c in self.mro(cls):
             if field in self.classes.get(c, {}):
                 return c
-            c = self.bases.get(c)
         return None
 
     def field_shape(self, cls, field):
@@ -162,19 +181,13 @@ class Registry:
         return self.classes[o][field]
 
     def is_subclass(self, c, base):
-        while c is not None:
-            if c == base:
-                return True
-            c = self.bases.get(c)
-        return False
+        return base in self.mro(c)
 
     def find_method(self, cls, name):
-        c = cls
-        while c is not None:
+        for c in self.mro(cls):
             for fc in self.funcs.values():
                 if fc.cls == c and fc.method_name == name and "." in fc.qualname:
                     return fc
-            c = self.bases.get(c)
         return None
 
     def find_function(self, name):
